@@ -247,7 +247,11 @@ impl Expr {
             }
             Expr::Index { lhs_raw, .. } => lhs_raw.path_leads_through_module(flags),
             Expr::UnaryUnwrap { value, .. } => value.path_leads_through_module(flags),
-            Expr::NilEval { primary, .. } => primary.path_leads_through_module(flags),
+            // either operand of `or` may be the value that is written through
+            Expr::NilEval { primary, fallback } => {
+                primary.path_leads_through_module(flags)
+                    || matches!(fallback, Value::MathExpr(inner) if inner.path_leads_through_module(flags))
+            }
             Expr::Value(Value::MathExpr(inner)) => inner.path_leads_through_module(flags),
             _ => false,
         }
